@@ -310,3 +310,76 @@ fn x_agg_int() {
     kani::cover!(a.checked_add(b).is_none());
     std::mem::forget(r);
 }
+
+#[kani::proof]
+#[kani::unwind(4)]
+fn x_sum2() {
+    let (a, b): (i64, i64) = (kani::any(), kani::any());
+    let mut s = VerifAggregateState::new(AggregateFunction::Sum);
+    s.update(Some(Value::Int64(a)));
+    s.update(Some(Value::Int64(b)));
+    let r = s.finalize();
+    match a.checked_add(b) {
+        Some(t) => assert!(matches!(r, Value::Int64(x) if x == t), "sum is not the sum"),
+        None => assert!(matches!(r, Value::Null), "an overflowing integer sum is not NULL"),
+    }
+    kani::cover!(a.checked_add(b).is_none());
+    std::mem::forget((s, r));
+}
+#[kani::proof]
+#[kani::unwind(4)]
+fn x_minmax2() {
+    let (a, b): (i64, i64) = (kani::any(), kani::any());
+    let mut s = VerifAggregateState::new(AggregateFunction::Min);
+    s.update(Some(Value::Int64(a)));
+    s.update(Some(Value::Int64(b)));
+    let r = s.finalize();
+    assert!(matches!(r, Value::Int64(x) if x == if a <= b { a } else { b }), "min is not the minimum");
+    let mut c = VerifAggregateState::new(AggregateFunction::Count);
+    c.update(None); c.update(None);
+    let rc = c.finalize();
+    assert!(matches!(rc, Value::Int64(2)), "count(*) is not the number of rows");
+    kani::cover!(a > b);
+    std::mem::forget((s, r, c, rc));
+}
+
+fn sum_after(a: i64, b: i64) -> Value {
+    let mut s = VerifAggregateState::new(AggregateFunction::Sum);
+    s.update(Some(Value::Int64(a)));
+    s.update(Some(Value::Int64(b)));
+    let r = s.finalize();
+    std::mem::forget(s);
+    r
+}
+#[kani::proof]
+#[kani::unwind(4)]
+fn x_sum2c() {
+    let b: i64 = kani::any();
+    macro_rules! one { ($a:expr) => {{
+        let r = sum_after($a, b);
+        match ($a as i64).checked_add(b) {
+            Some(t) => assert!(matches!(r, Value::Int64(x) if x == t), "sum is not the sum"),
+            None => assert!(matches!(r, Value::Null), "an overflowing integer sum is not NULL"),
+        }
+        std::mem::forget(r);
+    }}; }
+    one!(i64::MAX); one!(i64::MIN);
+    kani::cover!(i64::MAX.checked_add(b).is_none());
+    kani::cover!(i64::MIN.checked_add(b).is_none());
+}
+
+#[kani::proof]
+#[kani::unwind(4)]
+fn x_sum_nopanic() {
+    let b: i64 = kani::any();
+    let mut s = VerifAggregateState::new(AggregateFunction::Sum);
+    s.update(Some(Value::Int64(i64::MAX)));
+    s.update(Some(Value::Int64(b)));
+    std::mem::forget(s);
+    let mut t = VerifAggregateState::new(AggregateFunction::Sum);
+    t.update(Some(Value::Int64(i64::MIN)));
+    t.update(Some(Value::Int64(b)));
+    std::mem::forget(t);
+    kani::cover!(b > 0);
+    kani::cover!(b < 0);
+}
